@@ -493,8 +493,38 @@ Definition linked_titles_inert (c : libcase) (o : note_obs) : bool :=
   | None => true
   end.
 
+(* class 7 (F-C02-lead-nothing): the FIRST block of some list item carries nothing (a list of empty items,
+   an empty quote) and something follows it: the item does not start with text as read - it is built as a
+   section without text over its blocks - but does once it is written, because what carries nothing is
+   not written: `+ +` / `  # h` is written `- # h` and then `- h`; `1) +` / `   text` is written as a
+   loose item and then as a tight one *)
+Fixpoint lead_nothing (b : dblock) {struct b} : bool :=
+  let fix go (l : list dblock) {struct l} : bool :=
+    match l with [] => false | x :: r => lead_nothing x || go r end in
+  let fix items (l : list (list dblock)) {struct l} : bool :=
+    match l with
+    | [] => false
+    | it :: r =>
+        (match it with
+         | first :: rest =>
+             match canon first, flat_map canon rest with
+             | [], _ :: _ => true
+             | _, _ => false
+             end
+         | [] => false
+         end) || go it || items r
+    end in
+  match b with
+  | DQuote _ bs => go bs
+  | DOList its | DBList its => items its
+  | _ => false
+  end.
+Definition note_lead_nothing (c : libcase) (o : note_obs) : bool :=
+  match note_blocks c (no_key o) with Some bs => existsb lead_nothing bs | None => false end.
+
 Definition base_classes (c : libcase) (o : note_obs) : list N :=
-  note_classes c o ++ flag 1 (linked_titles_inert c o) ++ flag 5 (negb (existsb title_has_link (lc_notes c))).
+  note_classes c o ++ flag 1 (linked_titles_inert c o) ++ flag 5 (negb (existsb title_has_link (lc_notes c))) ++
+  flag 7 (negb (note_lead_nothing c o)).
 
 Definition has_kinds (c : libcase) : bool := lib_nontrivial c.
 
